@@ -448,7 +448,9 @@ func (nc *nodeCase) oracleReplay(when string) {
 	}
 	defer fresh.close()
 	for i := len(chain) - 2; i >= 0; i-- {
-		if r := fresh.processBlock(nc.nm.blocks[chain[i]]); r.String() != "ok" {
+		r := fresh.processBlock(nc.nm.blocks[chain[i]])
+		fresh.quiesce()
+		if r.String() != "ok" {
 			nc.c.Fail("C10:replay-rejects-main-chain", fmt.Sprintf("%s: a fresh node fed the main chain in order rejects %s: %v %s", when, chain[i], r.err, r.panic))
 			return
 		}
